@@ -8,7 +8,7 @@ use crate::sched::SchedSpec;
 use locustdb_simrt::core::Rng;
 use std::collections::BTreeMap;
 
-pub const CLAIMED: &[&str] = &["C01", "C02", "C03", "C04", "C05", "C06", "C07", "C08", "C09", "C10", "C11", "C12", "C13", "C14", "C15", "C18"];
+pub const CLAIMED: &[&str] = &["C01", "C02", "C03", "C04", "C05", "C06", "C07", "C08", "C09", "C10", "C11", "C12", "C13", "C14", "C15", "C17", "C18"];
 
 pub fn mix_seed(base: u64, prop: &str, i: u64) -> u64 {
     let mut h = 0xcbf29ce484222325u64 ^ base.wrapping_mul(0x9E3779B97F4A7C15);
@@ -334,6 +334,7 @@ fn gen_plan_inner(prop: &str, seed: u64, rng: &mut Rng) -> Plan {
         "C10" => gen_c10(seed, &mut rng),
         "C11" => gen_c11(seed, &mut rng, false),
         "C12" => gen_c11(seed, &mut rng, true),
+        "C17" => gen_c17(seed, &mut rng),
         _ => panic!("no generator for property {prop}"),
     }
 }
@@ -577,6 +578,136 @@ fn gen_c11(seed: u64, rng: &mut Rng, strings_only: bool) -> Plan {
     p
 }
 
+
+/// C17: everything goes through the HTTP handlers. A data-rich table `h` (integers beyond 2^53,
+/// NULLs, non-finite floats, mixed and all-NULL columns) inserted through /insert_bin and queried
+/// on every endpoint and encoding against the embedded answer; failing queries of every kind on
+/// every endpoint, each followed by a good one; then clients inserting and querying concurrently
+/// (prefix oracle) while a flush runs; then the comparison again.
+fn gen_c17(seed: u64, rng: &mut Rng) -> Plan {
+    use crate::plan::HttpEndpoint as E;
+    let mut p = base_plan("C17", "history", seed, rng);
+    p.opts.on_disk = rng.below(3) != 0;
+    p.opts.threads = *rng.pick(&[1usize, 1, 2, 3]);
+    p.opts.partition_combine_factor = *rng.pick(&[1u64, 4, 999]);
+    p.knobs.insert("failing_requests_expected".into(), 1);
+    p.check_each = false;
+    let endpoints = [E::Query, E::QueryCols, E::MultiJson, E::MultiBin, E::MultiBinXor];
+    let mut id: u32 = 1;
+    // --- the table h
+    let big = *rng.pick(&[ColClass::IntFull, ColClass::IntU32Offset, ColClass::IntNeg]);
+    let fcls = *rng.pick(&[ColClass::FloatDyadic, ColClass::FloatSpecial, ColClass::FloatWide, ColClass::FloatF32]);
+    // (packed string columns cannot be compacted, see known findings: only when nothing compacts)
+    let scls = if p.opts.partition_combine_factor == 999 || spicy() { *rng.pick(&[ColClass::StrLowCard, ColClass::StrUnicode, ColClass::StrEmptyish]) } else { ColClass::StrLowCard };
+    let mut schema: Vec<(&str, ColClass, NullPattern)> = vec![
+        ("big", big, NullPattern::None),
+        ("n", ColClass::IntU8, *rng.pick(&[NullPattern::None, NullPattern::Some, NullPattern::Most])),
+        ("g", ColClass::IntU8, NullPattern::None),
+        ("f", fcls, *rng.pick(&[NullPattern::None, NullPattern::Some])),
+        ("s", scls, *rng.pick(&[NullPattern::None, NullPattern::Some])),
+    ];
+    if rng.below(2) == 0 {
+        schema.push(("m", *rng.pick(&[ColClass::MixAny, ColClass::MixIntFloat]), *rng.pick(&[NullPattern::None, NullPattern::Some])));
+    }
+    if rng.below(4) == 0 {
+        schema.push(("z", ColClass::AllNull, NullPattern::None));
+    }
+    let nreq = 1 + rng.below(3);
+    let mut base = 0u64;
+    for _ in 0..nreq {
+        let rows = 1 + rng.below(12) as usize;
+        let mut cols = vec![ColBatch { name: "id".into(), cells: (0..rows).map(|i| Cell::I(base as i64 + i as i64)).collect(), repr: Repr::Typed }];
+        for (name, class, np) in &schema {
+            cols.push(ColBatch { name: name.to_string(), cells: gen_cells(rng, *class, *np, rows, base), repr: pick_repr(rng) });
+        }
+        base += rows as u64;
+        p.ops.push(Op::Ingest(Request { id, path: IngestPath::Http, tables: vec![TableBatch { table: "h".into(), rows, cols }] }));
+        id += 1;
+        if rng.below(2) == 0 {
+            p.ops.push(Op::Flush);
+        }
+    }
+    if p.opts.on_disk && rng.below(4) == 0 {
+        p.ops.push(Op::Restart);
+    }
+    p.ops.push(Op::CheckAll);
+    // --- the same query through the embedded API and through an endpoint
+    let colnames: Vec<&str> = std::iter::once("id").chain(schema.iter().map(|c| c.0)).collect();
+    let info = crate::sqlgen::TableInfo { name: "h".into(), int_cols: vec!["id".into(), "big".into(), "n".into(), "g".into()], float_cols: vec!["f".into()], str_cols: vec!["s".into()] };
+    let nq = 6 + rng.below(10);
+    for _ in 0..nq {
+        let c = *rng.pick(&colnames);
+        let sql = match rng.below(12) {
+            0 => "SELECT * FROM \"h\"".to_string(),
+            1 => format!("SELECT id, {c} FROM \"h\""),
+            2 => format!("SELECT {c} FROM \"h\" ORDER BY id DESC"),
+            3 => format!("SELECT {c}, id FROM \"h\" WHERE n > {}", rng.range(-1, 200)),
+            4 => "SELECT COUNT(1), SUM(n), MIN(big), MAX(big) FROM \"h\"".to_string(),
+            // (grouping by a nullable column has schedule-dependent answers, see known findings)
+            5 => format!("SELECT {}, COUNT(1) FROM \"h\"", if spicy() { "n" } else { "g" }),
+            6 => format!("SELECT id, {c} FROM \"h\" ORDER BY id LIMIT {}", rng.below(5)),
+            7 => "SELECT MIN(f), MAX(f), SUM(f) FROM \"h\"".to_string(),
+            8 => format!("SELECT id FROM \"h\" WHERE {c} IS NULL"),
+            9..=10 => crate::sqlgen::supported(rng, &info),
+            _ => format!("SELECT big + 1, big - 1, id FROM \"h\""),
+        };
+        p.ops.push(Op::HttpRawQuery { endpoint: *rng.pick(&endpoints), sql });
+    }
+    p.ops.push(Op::HttpColumns { table: "h".into(), pattern: rng.pick(&["", "i", "zz", "b"]).to_string() });
+    // --- failing requests, each followed by a good one on the same endpoint
+    let nf = 2 + rng.below(5);
+    for _ in 0..nf {
+        let e = *rng.pick(&endpoints);
+        let sql = if rng.below(4) == 0 {
+            let base = crate::sqlgen::supported(rng, &info);
+            crate::sqlgen::mutate(rng, &base)
+        } else {
+            crate::sqlgen::unsupported_or_failing(rng, &info)
+        };
+        p.ops.push(Op::HttpRawQuery { endpoint: e, sql });
+        p.ops.push(Op::HttpRawQuery { endpoint: e, sql: "SELECT id, n FROM \"h\"".into() });
+    }
+    // --- concurrent clients on the handlers
+    let tables = ["t0", "t1"];
+    let mut r0 = prefix_request(rng, id, &tables);
+    r0.path = IngestPath::Http;
+    p.ops.push(Op::Ingest(r0));
+    id += 1;
+    let mut clients = Vec::new();
+    let n_ing = 1 + rng.below(2);
+    for c in 0..n_ing {
+        let mut ops = Vec::new();
+        for _ in 0..(1 + rng.below(3)) {
+            let nt = 1 + rng.below(2) as usize;
+            let mut r = prefix_request(rng, id, &tables[..nt]);
+            r.path = IngestPath::Http;
+            ops.push(ClientOp { at: placement(rng), op: Op::Ingest(r) });
+            id += 1;
+        }
+        clients.push(ClientPlan { name: format!("insert{c}"), ops });
+    }
+    let n_q = 1 + rng.below(2);
+    for c in 0..n_q {
+        let mut ops = Vec::new();
+        for _ in 0..(1 + rng.below(4)) {
+            let t = tables[rng.below(2) as usize];
+            let sql = prefix_query(rng, t);
+            // (the aggregate form names its columns by expression: ask a JSON endpoint, which carries the order)
+            let e = if sql.contains("COUNT(1)") { *rng.pick(&[E::Query, E::QueryCols, E::MultiJson]) } else { *rng.pick(&endpoints) };
+            ops.push(ClientOp { at: placement(rng), op: Op::HttpRawQuery { endpoint: e, sql } });
+        }
+        clients.push(ClientPlan { name: format!("query{c}"), ops });
+    }
+    if rng.below(2) == 0 {
+        clients.push(ClientPlan { name: "maint".into(), ops: vec![ClientOp { at: None, op: Op::Flush }] });
+    }
+    p.ops.push(Op::Concurrent(clients));
+    p.ops.push(Op::CheckAll);
+    for t in tables {
+        p.ops.push(Op::HttpRawQuery { endpoint: *rng.pick(&endpoints), sql: format!("SELECT * FROM \"{t}\"") });
+    }
+    p
+}
 
 // ---------------------------------------------------------------------------------------------
 // query properties (C02-C06): one logical table, seeded physical realisations, generated queries
